@@ -108,6 +108,10 @@ def cut_layout(rng, w, h, goal, start, fill, fillw):
 
 SIZES = [(w, h) for w in range(1, 6) for h in range(1, 5)]
 SP_MENU = [(0, 1), (1, 2), (4, 5), (1, 1), (1, 4)]
+# probabilities that are neither multiples of 0.01 nor simple dyadics (a rounding / formatting shortcut in the
+# code under test must show up as a normalisation or success-probability failure)
+ODD_P = [(1, 3), (171, 200), (999, 1000), (1, 128), (2, 7)]
+ODD_GAMMA = [(1, 3), (97, 100), (123, 1000), (777, 1000)]
 
 
 def gw_default_opts():
@@ -136,7 +140,7 @@ def gw_cases(rng, tier):
             if "s" not in tiles:
                 continue
             rows = ["".join(tiles[r * w:(r + 1) * w]) for r in range(h)]
-            sps = SP_MENU[:4] if (tier == "thorough" and w * h <= 4) else [SP_MENU[k % 4]]
+            sps = (SP_MENU[:4] if (tier == "thorough" and w * h <= 4) else [SP_MENU[k % 4]]) + [ODD_P[k % len(ODD_P)]]
             k += 1
             for sp in sps:
                 add(rows, sp, f"exhaustive-{w}x{h}")
@@ -145,7 +149,7 @@ def gw_cases(rng, tier):
             for _ in range(3000):
                 tiles = [rng.choice(".#gsx") for _ in range(w * h)]
                 tiles[rng.randrange(w * h)] = "s"
-                add(["".join(tiles[r * w:(r + 1) * w]) for r in range(h)], rng.choice(SP_MENU[:4]), f"sample-{w}x{h}")
+                add(["".join(tiles[r * w:(r + 1) * w]) for r in range(h)], rng.choice(SP_MENU[:4] + ODD_P), f"sample-{w}x{h}")
     # random bigger layouts with every option varied
     n = 420 if tier == "quick" else 6000
     for i in range(n):
@@ -161,19 +165,19 @@ def gw_cases(rng, tier):
         elif style == 2:    # hazards absorb, goal pays
             kw = dict(absf=["g", "x"], fr=[["g", 5], ["x", -20]])
         elif style == 3:    # discounted, rewards of either sign, free moves
-            kw = dict(GN=rng.choice([1, 19, 99]), SC=rng.choice([0, -1, 1, -3]), fr=[["g", 7], ["x", rng.choice([-4, 3])]])
-            kw["GD"] = {1: 2, 19: 20, 99: 100}[kw["GN"]]
+            kw = dict(SC=rng.choice([0, -1, 1, -3]), fr=[["g", 7], ["x", rng.choice([-4, 3])]])
+            kw["GN"], kw["GD"] = rng.choice([(1, 2), (19, 20), (99, 100)] + ODD_GAMMA)
         elif style == 4:    # no feature rewards at all (the default of the class)
             kw = dict(fr=[], SC=rng.choice([-1, -2]))
         elif style == 5:    # goals cutting the grid
             rows = cut_layout(rng, max(w, 3), h, "g", "s", ".#x", [6, 2, 1])
-            add(rows, rng.choice(SP_MENU), "cut", **kw)
+            add(rows, rng.choice(SP_MENU + ODD_P), "cut", **kw)
             continue
         must = [kw.get("initf", ["s"])[0]] if rng.random() < 0.5 else []
         rows = rand_layout(rng, w, h, alpha, wts, must)
         if not any(ch in kw.get("initf", ["s"]) for r in rows for ch in r):
             rows[0] = kw.get("initf", ["s"])[-1] + rows[0][1:]
-        add(rows, rng.choice(SP_MENU), "random", **kw)
+        add(rows, rng.choice(SP_MENU + ODD_P), "random", **kw)
     return cases
 
 
@@ -188,16 +192,16 @@ def windy_case(rng, rows, tag, **kw):
 def dom_cases(rng, tier):
     cases = []
     # --- Tiger / LoadUnload / CliffWalking: every parameter value of the menus
-    for (cn, cd) in [(0, 1), (3, 20), (1, 2), (17, 20), (1, 1), (1, 4)]:
-        for (gn, gd) in [(19, 20), (1, 2), (1, 1)]:
+    for (cn, cd) in [(0, 1), (3, 20), (1, 2), (17, 20), (1, 1), (1, 4), (19, 20)] + ODD_P:
+        for (gn, gd) in [(19, 20), (1, 2), (1, 1), ODD_GAMMA[(cn + cd) % len(ODD_GAMMA)]]:
             cases.append(dict(dom="Tiger", CN=cn, CD=cd, GN=gn, GD=gd, tag="menu", rep=dict(co=rng.choice(["float", "int"]))))
     for n in range(1, 9):
-        for (gn, gd) in [(99, 100), (1, 2)] + ([(1, 1)] if n % 2 else []):
+        for (gn, gd) in [(99, 100), (1, 2), ODD_GAMMA[n % len(ODD_GAMMA)]] + ([(1, 1)] if n % 2 else []):
             cases.append(dict(dom="LoadUnload", n=n, GN=gn, GD=gd, tag="menu", rep=dict(opts=rng.choice(["explicit", "default"]))))
     cases.append(dict(dom="CliffWalking", tag="fixed", rep={}, GN=1, GD=1, W=12, H=4,
                       rows=["............", "............", "............", "sxxxxxxxxxxg"]))
     # --- WindyGridWorld
-    wp_menu = [(0, 1), (1, 4), (1, 2), (3, 4), (1, 1), (1, 5)]
+    wp_menu = [(0, 1), (1, 4), (1, 2), (3, 4), (1, 1), (1, 5)] + ODD_P
     cases.append(windy_case(rng, ["@..$"], "default-feature-rewards", fr=None, rep=dict(grid="plain", fr="default", opts="default")))
     cases.append(windy_case(rng, ["@>.", "..$"], "default-feature-rewards", fr=None, rep=dict(grid="plain", fr="default", opts="explicit")))
     n = 264 if tier == "quick" else 4000
@@ -208,6 +212,10 @@ def dom_cases(rng, tier):
         kw["WN"], kw["WD"] = rng.choice(wp_menu)
         if style == 5:      # absorbing initial states: goal tiles are start tiles too
             kw.update(start=["@", "$"])
+        if style == 0:      # odd discount rates; every other one built with the default feature_rewards (None)
+            kw["GN"], kw["GD"] = rng.choice(ODD_GAMMA)
+            if (i // 6) % 2 == 0:
+                kw.update(fr=None, rep=dict(grid=rng.choice(["plain", "indented"]), fr="default", opts=rng.choice(["explicit", "default"])))
         if style == 1:
             kw.update(GN=1, GD=1, SC=rng.choice([-1, -2]), BC=rng.choice([0, -1, -3]), fr=[["x", -50], ["$", 0]])
         elif style == 2:
@@ -223,14 +231,14 @@ def dom_cases(rng, tier):
         rows = rand_layout(rng, w, h, alpha, wts, ["@"])
         cases.append(windy_case(rng, rows, "random", **kw))
     # --- HeavenOrHell
-    co_menu = [(0, 1), (1, 2), (19, 20), (1, 1), (3, 4)]
+    co_menu = [(0, 1), (1, 2), (19, 20), (1, 1), (3, 4)] + ODD_P
     cases.append(dict(dom="HeavenOrHell", rows=None, CN=19, CD=20, SC=-1, HR=50, LR=-50, GN=19, GD=20, tag="default-grid",
                       rep=dict(opts="default")))
     n = 132 if tier == "quick" else 2000
     for i in range(n):
         w, h = rng.choice(SIZES[1:])
         cn, cd = rng.choice(co_menu)
-        gn, gd = rng.choice([(19, 20), (1, 2), (1, 1)])
+        gn, gd = rng.choice([(19, 20), (1, 2), (1, 1)] + ODD_GAMMA[:2])
         if gn == gd:
             sc, hr, lr = rng.choice([-1, -2]), 0, -50
         else:
@@ -636,8 +644,6 @@ def corner(case):
     if dom == "GridWorld":
         n, dd = case["SPN"], case["SPD"]
     elif dom == "WindyGridWorld":
-        if case["fr"] is None:
-            return "feature_rewards=None"
         n, dd = case["WN"], case["WD"]
     elif dom in ("Tiger", "HeavenOrHell"):
         n, dd = case["CN"], case["CD"]
@@ -1238,9 +1244,11 @@ def run(ctx):
     rng = random.Random(ctx.seed * 104729 + 20)
     ctx.rule = ("GridWorld: every layout with a start cell of sizes 1x1..2x2, 3x1, 1x3 over {. # g s x} (thorough: up to 3x2 / 2x3, "
                 "all four success probabilities) plus random layouts up to 5x4 with varied wall / absorbing / start symbols, feature "
-                "rewards, step costs, discounts, success probabilities {0,1/4,1/2,4/5,1}, goals cutting the grid, four input "
+                "rewards, step costs, discounts (incl. 1/3, 0.97, 0.123, 0.777), success probabilities {0,1/4,1/2,4/5,1} and the odd values "
+                "{1/3, 0.855, 0.999, 1/128, 2/7}, goals cutting the grid, four input "
                 "representations; other domains: parameter menus (Tiger, LoadUnload, CliffWalking) and random / goal-cut layouts up "
-                "to 5x4 x wind or coherence in {0,..,1} x costs x discounts (Windy, HeavenOrHell); non-trivial = the real object "
+                "to 5x4 x wind or coherence in {0,..,1} incl. the same odd values x costs x discounts, default feature_rewards=None for "
+                "every 12th Windy layout (Windy, HeavenOrHell); non-trivial = the real object "
                 "has >= 2 states and (GridWorld) the layout has an absorbing cell and a wall or more than two cells; key = case "
                 "without the input representation")
     ctx.assumptions = [
@@ -1296,7 +1304,8 @@ def selftest(ctx):
     entries; each corruption must be detected (as a violation, or as drift for the drift-level models)."""
     rng = random.Random(11)
     gw = [c for c in gw_cases(rng, "quick") if c["tag"] == "random"][:12]
-    doms = [c for c in dom_cases(rng, "quick") if c["dom"] in ("WindyGridWorld", "Tiger") and c.get("fr", 0) is not None][:24]
+    alld = dom_cases(rng, "quick")
+    doms = [c for c in alld if c["dom"] == "Tiger"][:8] + [c for c in alld if c["dom"] == "WindyGridWorld"][:16]
     cases = gw + doms
     dumps = [observe(c) for c in cases]
     base = judge_all(ctx, gw, doms, dumps=dumps)
